@@ -75,8 +75,13 @@ pub fn gen(prop: &str, scen: &str, _k: u64, seed: u64, tier: &str) -> Case {
         let plen = *r_in.pick(&[1usize, 100, 3000, case.opt.dict as usize, case.opt.dict as usize + 500]);
         case.opt.preset = Some(simcore::case::InputSpec::new("text", plen, r_in.next_u64()));
     }
+    if scen == "mt.sizes" && r_in.pct(60) {
+        // units that begin with incompressible data start with an uncompressed (0x01) chunk
+        case.input.class = (*r_in.pick(&["random", "mixed", "incomp_then_comp"])).into();
+        case.input.p1 = *r_in.pick(&[64u64, 3000, 50]);
+    }
     match scen {
-        "mt.equiv" | "mt.determ" => {
+        "mt.equiv" | "mt.determ" | "mt.sizes" => {
             if r_f.pct(40) {
                 case.src_policy = benign_policy(&mut r_f);
                 case.sink_policy = benign_policy(&mut r_f);
@@ -609,7 +614,7 @@ fn exec_writer(case: &Case, data: &Arc<Vec<u8>>, ctx: &mut Ctx) -> Option<Violat
     let budget = step_budget(case, data.len());
     let c2 = case.clone();
     let d2 = data.clone();
-    let second_phase = scen == "mt.equiv";
+    let second_phase = scen == "mt.equiv" || scen == "mt.sizes";
     let run = run_scheduled(case, budget, move |shared| {
         let ph = writer_phase(&c2, &d2, drop_at);
         let ok = ph.error.is_none() && !ph.dropped_early;
